@@ -3,6 +3,34 @@ import Rbgp.Rtr.Spec
 namespace Rbgp.C13
 open Rbgp Rbgp.Term Rbgp.Rtr Rbgp.Rtr.Codec
 
+/-- which guards of the reference checker a (session, snapshot) pair passed — evidence only -/
+def slotStat (s : Snap) (x : Spec.SSlot) : List String :=
+  if !x.started then ["skip-not-started"]
+  else if Spec.ended s x then ["judged-ended-cleared"]
+  else
+    let (done, left, dirty) := Spec.split x.pdus x.delivered
+    if dirty then ["skip-nonconforming-byte"]
+    else
+      let f := Spec.specFold ⟨x.cache, x.sid⟩ done
+      if !f.ok then ["skip-withdraw-in-reset-response"]
+      else
+        (if f.floor.isEmpty then ["judged-kept-trivial"] else ["judged-kept"]) ++
+        (if left ≠ 0 then ["skip-mid-pdu"]
+         else ["judged-consumed"] ++
+           (match f.lastEod with
+            | some _ => if f.installed.isEmpty then ["judged-installed-empty"] else ["judged-installed"]
+            | none => ["skip-not-at-end-of-data"]))
+
+def statsFrom : List Spec.SSlot → List Step → List Snap → List String
+  | _, [], _ => []
+  | σ, .snap :: rest, s :: obs => (σ.flatMap (slotStat s)) ++ statsFrom σ rest obs
+  | _, .snap :: _, [] => []
+  | σ, st :: rest, obs => statsFrom (Spec.sStep σ st) rest obs
+
+def countTokens (l : List String) : String :=
+  let keys := l.foldl (fun acc k => if acc.contains k then acc else acc ++ [k]) []
+  " ".intercalate (keys.map fun k => s!"{k}={(l.filter (· == k)).length}")
+
 def verdictStr : Spec.Verdict → String
   | .ok => "ok"
   | .fail i c => s!"fail step={i} clause={c}"
@@ -15,6 +43,7 @@ def handler (mode : String) (line : String) : String :=
       match (parse line).bind caseOf? with
       | some (.script c) => toStr (outT (run c))
       | some (.tcp n) => toStr (tcpT n)
+      | some (.tcpReset n) => toStr (tcpResetT n)
       | none => "(bad-case)"
   | "oracle" =>
       match parseMany line with
@@ -27,9 +56,23 @@ def handler (mode : String) (line : String) : String :=
           | some (.tcp n) =>
               -- every cancellation must have removed the cache's VRPs
               if toStr o == toStr (tcpT n) then "ok" else "fail step=0 clause=vrps-remain-after-cancel"
+          | some (.tcpReset n) =>
+              -- after a hard reset exactly the new session's VRPs, and none after its end
+              if toStr o == toStr (tcpResetT n) then "ok" else "fail step=0 clause=vrps-wrong-after-hard-reset"
           | none =>
               if toStr o == "(bad-case)" then "ok" else "fail step=0 clause=ill-formed-case-accepted"
       | _ => "(bad-line)"
+  | "stats" =>
+      match parseMany line with
+      | some [c, o] =>
+          match caseOf? c, outOf? o with
+          | some (.script c), some (.ok obs) =>
+              let l := statsFrom (Spec.initSlots c) c.steps obs
+              countTokens (l ++ (if l.contains "judged-installed" then ["cases-judged-installed"] else ["cases-never-judged-installed"]))
+          | some (.tcp _), _ => "tcp-cases=1"
+          | some (.tcpReset _), _ => "tcp-cases=1"
+          | _, _ => "other=1"
+      | _ => "other=1"
   | _ => "(bad-mode)"
 
 end Rbgp.C13
